@@ -20,6 +20,11 @@ def expected_args(pid, desc):
         if links is None:
             return None
         return ["C06", [[a, b, pa, pb] for a, b, pa, pb in links], len(spec.instances(desc))]
+    if pid == "C08":
+        e = spec.axi_expect(desc)
+        if e is None:
+            return None
+        return ["C08", e[0], e[1], e[2]]
     if pid == "C07":
         return ["C07", [spec.camel(i["enum"]) for i in spec.instances(desc)]]
     return pid
